@@ -101,8 +101,8 @@ pub fn ser_job(job: &J) -> J {
     let mut w = match World::build(&job["st"]) {
         Ok(w) => w,
         Err(e) => {
-            eprintln!("TOOLERROR cannot rebuild state: {e}");
-            std::process::exit(2);
+            eprintln!("BUILDFAIL cannot rebuild state: {e}");
+            return J::Null;
         }
     };
     let root = w.h(job["root"].as_u64().unwrap_or(1) as usize);
